@@ -230,6 +230,7 @@ var (
 	siteAfterExec   = rt.H("harness.afterExecute")
 	siteWaitCallers = rt.H("harness.waitCallers")
 	siteWaitServer  = rt.H("harness.waitServer")
+	siteSigSelect   = rt.H("harness.sigselect")
 )
 
 // RunSession is the body of the simulation's main goroutine.
@@ -286,9 +287,8 @@ func RunSession(s *rt.Sim, plan *SessionPlan, obs *SessionObs) {
 						defer close(toStep)
 						for _, sg := range call.Signals {
 							rt.Yield(siteHarness)
-							select {
-							case toStep <- schema.Input{RunID: call.RunID, ID: sg.ID, InputData: sg.Data}:
-							case <-stop:
+							// (a scheduler-visible select: with both cases ready the runtime would pick at random)
+							if rt.Select(siteSigSelect, rt.NewSend(toStep, schema.Input{RunID: call.RunID, ID: sg.ID, InputData: sg.Data}), rt.NewRecv(stop)) == 1 {
 								return
 							}
 							rt.Yield(siteHarness)
@@ -299,17 +299,12 @@ func RunSession(s *rt.Sim, plan *SessionPlan, obs *SessionObs) {
 						defer sideWG.Done()
 						for {
 							rt.Yield(siteDrain)
-							select {
-							case _, ok := <-fromStep:
-								if !ok {
-									return
-								}
-								res.FromStep++
-							case <-stop:
-								// Execute returned: a result entry existed and the client closed the
-								// channel, or the call was refused and the channel was never used
+							cFrom := rt.NewRecv(fromStep)
+							if rt.Select(siteSigSelect, cFrom, rt.NewRecv(stop)) == 1 || !cFrom.OK {
+								// Execute returned (the client closed the channel, or the call was refused and it was never used)
 								return
 							}
+							res.FromStep++
 						}
 					})
 					r := client.Execute(schema.Input{RunID: call.RunID, ID: call.Step, InputData: call.Input}, toStep, fromStep)
